@@ -4,7 +4,9 @@ use crate::prelude::*;
 use bytes::{Bytes, BytesMut};
 use nix::errno::Errno;
 use nix::fcntl::FcntlArg;
+use std::collections::BTreeSet;
 use std::sync::atomic::AtomicU64;
+use std::sync::Mutex;
 use std::{
     os::unix::prelude::{AsRawFd, FileExt},
     time::SystemTime,
@@ -55,7 +57,41 @@ struct FileInner {
     #[cfg(pearl_verif)]
     path: PathBuf,
     size: AtomicU64,
-    synced_size: AtomicU64
+    synced_size: AtomicU64,
+    /// Offsets of the appends whose range is reserved in `size` but not completely written yet
+    inflight_appends: Mutex<BTreeSet<u64>>
+}
+
+/// Reserved range of an append. Dropped when the write is over (successfully or not)
+struct AppendReservation<'a> {
+    file_inner: &'a FileInner,
+    offset: u64,
+    len: u64
+}
+
+impl FileInner {
+    fn reserve_append(&self, len: u64) -> AppendReservation<'_> {
+        let mut inflight = self.inflight_appends.lock().expect("mutex");
+        let offset = self.size.fetch_add(len, Ordering::SeqCst);
+        if len > 0 {
+            inflight.insert(offset);
+        }
+        AppendReservation { file_inner: self, offset, len }
+    }
+
+    /// Length of the prefix of the file that has no write in flight: what `sync_all` called now makes durable
+    fn written_size(&self) -> u64 {
+        let inflight = self.inflight_appends.lock().expect("mutex");
+        inflight.iter().next().copied().unwrap_or_else(|| self.size.load(Ordering::SeqCst))
+    }
+}
+
+impl<'a> Drop for AppendReservation<'a> {
+    fn drop(&mut self) {
+        if self.len > 0 {
+            self.file_inner.inflight_appends.lock().expect("mutex").remove(&self.offset);
+        }
+    }
 }
 
 #[derive(PartialEq, Eq)]
@@ -84,7 +120,8 @@ impl File {
         let file_inner = self.inner.clone();
         if Self::can_run_inplace(len) {
             Self::inplace_sync_call(move || {
-                let offset = file_inner.size.fetch_add(len, Ordering::SeqCst);
+                let reservation = file_inner.reserve_append(len);
+                let offset = reservation.offset;
                 #[cfg(pearl_verif)]
                 crate::verif::io(crate::verif::IoOp::Reserve, &file_inner.path, None, offset, len)?;
                 let (res, data) = c.create(offset);
@@ -99,7 +136,8 @@ impl File {
             })
         } else {
             Self::background_sync_call(move || {
-                let offset = file_inner.size.fetch_add(len, Ordering::SeqCst);
+                let reservation = file_inner.reserve_append(len);
+                let offset = reservation.offset;
                 #[cfg(pearl_verif)]
                 crate::verif::io(crate::verif::IoOp::Reserve, &file_inner.path, None, offset, len)?;
                 let (res, data) = c.create(offset);
@@ -130,7 +168,8 @@ impl File {
         let file_inner = self.inner.clone();
         if Self::can_run_inplace(buf.len() as u64) {
             Self::inplace_sync_call(move || {
-                let offset = file_inner.size.fetch_add(buf.len() as u64, Ordering::SeqCst);
+                let reservation = file_inner.reserve_append(buf.len() as u64);
+                let offset = reservation.offset;
                 #[cfg(pearl_verif)]
                 {
                     return Self::verif_write_all_at(&file_inner, crate::verif::IoOp::Write, offset, &buf);
@@ -140,7 +179,8 @@ impl File {
             })
         } else {
             Self::background_sync_call(move || {
-                let offset = file_inner.size.fetch_add(buf.len() as u64, Ordering::SeqCst);
+                let reservation = file_inner.reserve_append(buf.len() as u64);
+                let offset = reservation.offset;
                 #[cfg(pearl_verif)]
                 {
                     return Self::verif_write_all_at(&file_inner, crate::verif::IoOp::Write, offset, &buf);
@@ -201,7 +241,8 @@ impl File {
 
     pub(crate) async fn fsyncdata(&self) -> IOResult<()> {
         let file_inner = self.inner.clone();
-        let size = self.size();
+        // Ranges reserved by writes that are still in flight are not covered by this sync
+        let size = file_inner.written_size();
         #[cfg(pearl_verif)]
         crate::verif::io(crate::verif::IoOp::SyncBegin, &file_inner.path, None, size, 0)?;
         Self::background_sync_call(
@@ -348,7 +389,8 @@ impl File {
                 #[cfg(pearl_verif)]
                 path: PathBuf::new(),
                 size,
-                synced_size
+                synced_size,
+                inflight_appends: Mutex::new(BTreeSet::new())
             })
         };
         Ok(file)
